@@ -150,8 +150,15 @@ class JointRecurrencePlot(RecurrencePlot):
             self.y.shape = (self.y.shape[0], -1)
 
             #  Normalize time series
-            if normalize:
+            #  a single flag applies to both series, a tuple gives one flag
+            #  per series
+            if isinstance(normalize, (tuple, list)):
+                normalize_x, normalize_y = normalize
+            else:
+                normalize_x = normalize_y = normalize
+            if normalize_x:
                 self.normalize_time_series(self.x)
+            if normalize_y:
                 self.normalize_time_series(self.y)
 
             #  Store lag
